@@ -216,6 +216,25 @@ def flat_result(r):
     return out
 
 
+def refresh_in_place(x):
+    """the caller reuses its own buffers: every array argument gets new contents in place (2 v + (k+1)/7 for the
+    k-th element), same objects, same shapes and dtypes.  Returns True if anything was refreshed."""
+    done = False
+    if isinstance(x, numpy.ndarray):
+        if x.size and x.dtype.kind in "fcO" and x.flags.writeable:
+            flat = x.reshape(-1)
+            for k in range(flat.size):
+                flat[k] = flat[k] * 2 + (Fr(k + 1, 7) if x.dtype == object else (k + 1) / 7.0)
+            done = True
+    elif isinstance(x, (list, tuple)):
+        for e in x:
+            done = refresh_in_place(e) or done
+    elif isinstance(x, dict):
+        for e in x.values():
+            done = refresh_in_place(e) or done
+    return done
+
+
 def poison(r):
     if isinstance(r, numpy.ndarray) and r.size:
         try:
@@ -291,6 +310,21 @@ def replay_spec(name, values):
     poison(r1)
     r3 = fn(*deep_copy(args), **deep_copy(kwargs))
     diff = not _res_close(r2, r3) or not _res_close(r1c, r2)
+    stale = False
+    if not changed:
+        try:
+            fn(*a1, **k1)
+        except Exception:
+            pass
+    if not changed and refresh_in_place((a1, k1)):
+        a5, k5 = deep_copy(a1), deep_copy(k1)
+        try:
+            r4 = deep_copy(fn(*a1, **k1))
+            r5 = fn(*a5, **k5)
+            stale = not _res_close(r4, r5)
+        except Exception:
+            stale = False
+    diff = diff or stale
     batch_bad = False
     if sp.get("batch") == "first" and isinstance(args[0], numpy.ndarray):
         full = flat_result(fn(*deep_copy(args), **deep_copy(kwargs)))
@@ -301,7 +335,7 @@ def replay_spec(name, values):
                 item = x[:, f] if name == "quadCell" else (x[f] if x.shape[1:] == y.shape else None)
                 if item is None or not numpy.allclose(item, y, rtol=1e-10, atol=1e-12):
                     batch_bad = True
-    return bool(changed or diff or alias or batch_bad), dict(what="%s: arguments modified=%s, repeated call differs=%s, results share storage=%s, stack differs from per-item calls=%s" % (name, changed, diff, alias, batch_bad),
+    return bool(changed or diff or alias or batch_bad), dict(what="%s: arguments modified=%s, repeated call differs=%s (after the caller refreshed its buffers in place: %s), results share storage=%s, stack differs from per-item calls=%s" % (name, changed, diff, stale, alias, batch_bad),
                                                 arguments=[numpy.asarray(a).tolist() if isinstance(a, numpy.ndarray) else repr(a) for a in args])
 
 
@@ -412,13 +446,20 @@ def case_spec(ctx, name):
             after = [(p, a, a.shape, [e for e in a.flat], str(a.dtype)) for p, a in arrays_in((a1, k1))]
             r1c = deep_copy(r1)
             if sp["light"]:
-                return snap, after, r1c, None, None, False
+                return snap, after, r1c, None, None, False, None, None
             r2 = fn(*deep_copy(args), **deep_copy(kwargs))
             r2c = deep_copy(r2)
             alias = any(x is y for x in _objs(r1) for y in _objs(r2))
             poison(r1)
             r3 = fn(*deep_copy(args), **deep_copy(kwargs))
-            return snap, after, r1c, r2c, r3, alias
+            r4 = r5 = None
+            fn(*a1, **k1)             # (the call just before the caller refreshes its buffers uses these very objects)
+            if refresh_in_place((a1, k1)):
+                # same argument objects, refreshed in place by the caller, against fresh objects with the same contents
+                a5, k5 = deep_copy(a1), deep_copy(k1)
+                r4 = deep_copy(fn(*a1, **k1))
+                r5 = fn(*a5, **k5)
+            return snap, after, r1c, r2c, r3, alias, r4, r5
     paths, ex = core.run_paths(go, pre, max_paths=20000)
     ctx.explored(ex, len(paths))
     vnames = set()
@@ -440,7 +481,7 @@ def case_spec(ctx, name):
             # an exception is not a purity question; recorded but not an obligation
             ctx.assume("%s: path raising %s not examined" % (name, type(p.exc).__name__))
             continue
-        snap, after, r1, r2, r3, alias = p.out
+        snap, after, r1, r2, r3, alias, r4, r5 = p.out
         g = []
         for (pa, arr, shp, elems, dt), (pb, arr2, shp2, elems2, dt2) in zip(snap, after):
             if shp != shp2 or dt != dt2 or len(elems) != len(elems2):
@@ -459,6 +500,9 @@ def case_spec(ctx, name):
         ctx.prove("path%d: second call returns the same result" % pi, hyp, res_equal_goal(r1, r2), replay=rp_args, timeout_ms=20000)
         ctx.prove("path%d: results of two calls do not share storage; a call after the first result was overwritten returns the same" % pi,
                   hyp, z3.And(z3.BoolVal(not alias), res_equal_goal(r2, r3)), replay=rp_args, timeout_ms=20000)
+        if r4 is not None:
+            ctx.prove("path%d: a call with the same argument objects refreshed in place equals the call on new objects with those contents" % pi,
+                      hyp, res_equal_goal(r4, r5), replay=rp_args, timeout_ms=20000, replay_on_unknown=True)
     if sp["batch"] == "first" and paths:
         arr = args[0]
         with npx.symbolic(*mods):
